@@ -40,6 +40,9 @@ type mdGen struct {
 	labels []string
 	// noTicks: inside a code span, nothing that contains a backtick may be written
 	noTicks bool
+	// inHTML: writing the content of an HTML element (no angle-bracket
+	// destinations, not even inside code spans)
+	inHTML bool
 	// climb: the directory of the file is deep enough for "../"
 	climb bool
 }
@@ -163,7 +166,7 @@ func (g *mdGen) inlineLink(kind string) {
 	}
 	g.w("[" + g.linkText() + "](")
 	form := g.r.Intn(7)
-	if (form == 0 || form == 4) && strings.HasPrefix(kind, "html-") {
+	if (form == 0 || form == 4) && (strings.HasPrefix(kind, "html-") || g.inHTML) {
 		// inside HTML content the rewriting looks for tags in the raw text and
 		// "<a/b>" looks like one: no angle-bracket destinations there
 		form = 5
@@ -192,6 +195,10 @@ func (g *mdGen) inlineLink(kind string) {
 
 // inline writes one line of inline content that is outside any HTML.
 func (g *mdGen) inline(kind string, n int) {
+	if strings.HasPrefix(kind, "html-") {
+		g.inHTML = true
+		defer func() { g.inHTML = false }()
+	}
 	for i := 0; i < n; i++ {
 		if i > 0 {
 			g.w(" ")
